@@ -266,6 +266,9 @@ def extra(uni, tier, seed):
 
 
 def replay(name, ob, model, uni):
+    from realise import C17 as R
+    if "never_equal" in name:
+        return R.never_equal_cases()
     return {"confirmed": False}
 
 
